@@ -618,6 +618,19 @@ func (i *interpreter) errorsIs(fr *frame, err, target iface) value {
 				return true
 			}
 		}
+		// Unwrap() []error (errors.Join, fmt.Errorf with several %w): any branch may match
+		if r, ok := i.callMethod(fr, err, "Unwrap"); ok {
+			if list, isList := r.([]value); isList {
+				for _, x := range list {
+					if xi, ok := x.(iface); ok && xi.t != nil {
+						if b, ok := i.errorsIs(fr, xi, target).(bool); ok && b {
+							return true
+						}
+					}
+				}
+				return false
+			}
+		}
 		next := i.unwrapErr(fr, err).(iface)
 		if next.t == nil {
 			return false
@@ -675,6 +688,9 @@ func (i *interpreter) fmtArg(a value, verb byte) value {
 	case bool:
 		return strconv.FormatBool(x)
 	case int, int8, int16, int32, int64:
+		if verb == 'c' {
+			return string(rune(asInt64(x)))
+		}
 		if verb == 'x' {
 			return strconv.FormatInt(asInt64(x), 16)
 		}
@@ -684,9 +700,30 @@ func (i *interpreter) fmtArg(a value, verb byte) value {
 			return strconv.FormatUint(uint64(asInt64(x)), 16)
 		}
 		return strconv.FormatUint(uint64(asInt64(x)), 10)
+	case float64:
+		return strconv.FormatFloat(x, 'g', -1, 64)
+	case float32:
+		return strconv.FormatFloat(float64(x), 'g', -1, 32)
 	case sym:
 		return "<sym>"
+	case array:
+		return i.fmtArg([]value(x), verb)
 	case []value:
+		if verb == 'x' {
+			allConc := len(x) > 0
+			for _, e := range x {
+				if _, ok := e.(uint8); !ok {
+					allConc = false
+				}
+			}
+			if allConc {
+				var sb strings.Builder
+				for _, e := range x {
+					fmt.Fprintf(&sb, "%02x", e.(uint8))
+				}
+				return sb.String()
+			}
+		}
 		if verb == 's' || verb == 'x' {
 			allBytes := true
 			for _, e := range x {
